@@ -101,23 +101,29 @@ def showTail (u : String) : List Char :=
   | some rest => '/' :: ' ' :: rest
   | Option.none => u.toList
 
+/-- the unit string does not begin with `/` (pint prints a unit without numerator as `1 / x`) -/
+def NoLeadingSlash (u : String) : Prop := u.toList.head? ≠ some '/'
+
+instance (u : String) : Decidable (NoLeadingSlash u) := by unfold NoLeadingSlash; infer_instance
+
 /-- **Hypotheses about pint** for one scalar quantity `(m, u)` (magnitude token, unit string):
 `str(q)` has no newline; and either the magnitude is not nan, its token does not start with
 `nan` and `units(str(q))` is the quantity again (magnitude re-read as `norm m u`), or the
-magnitude is nan and `units(...)` of what follows `nan` in `str(q)`, stripped, is a quantity in
-`u` (for an ordinary unit string that is `units(u)`, see `QOk_nan_of_unit`; for a unit printed
-`1 / x` it is `units("/ x")`, which the real pint refuses — candidate finding B). -/
+magnitude is nan, what follows `nan` in `str(q)` carries no surrounding blanks, the unit string
+does not begin with `/`, and `units(u)` is a quantity in `u` — for ordinary units AND for
+units printed `1 / x` (`str(q)` is then `nan / x`, and the code re-reads `/ x` as `1 / x`). -/
 def QOk (P : Pint) (m u : String) : Prop :=
   NoNL (showQ m u) ∧
   ((m ≠ "nan" ∧ startsWithNan m.toList = false ∧
       P.parse (showQ m u) = .ok (.quantity (P.norm m u) u)) ∨
-   (m = "nan" ∧ P.norm m u = "nan" ∧
-      ∃ m', P.parse (String.ofList (pyStripL (' ' :: showTail u))) = .ok (.quantity m' u)))
+   (m = "nan" ∧ P.norm m u = "nan" ∧ pyStripL (' ' :: showTail u) = showTail u ∧
+      NoLeadingSlash u ∧ ∃ m', P.parse u = .ok (.quantity m' u)))
 
-/-- Hypotheses for a bare unit `u`: no newline, `units(u)` is `norm "1" u * u` — and the unit's
-name does not start with `nan` (see `bare_unit_nan_prefix_fails`). -/
+/-- Hypotheses for a bare unit `u`: no newline, `units(u)` is `norm "1" u * u`, and the unit
+string is not the magnitude token `nan` (it is not literally `nan` and does not begin with
+`nan␣`; names that merely start with `nan` — nanometer, nanomolar — are fine). -/
 def UOk (P : Pint) (u : String) : Prop :=
-  NoNL u ∧ startsWithNan u.toList = false ∧ P.parse u = .ok (.quantity (P.norm "1" u) u)
+  NoNL u ∧ isNanMagnitude u.toList = false ∧ P.parse u = .ok (.quantity (P.norm "1" u) u)
 
 mutual
 /-- the round-trip domain: string leaves do not match the reserved pattern, quantities and
@@ -315,11 +321,12 @@ theorem showQ_toList (m u : String) : (showQ m u).toList = m.toList ++ ' ' :: sh
   cases h : stripPrefix? recipPrefix u.toList <;>
     simp [String.toList_append, h1, h2, String.toList_ofList]
 
-/-- `str(q)` starts with `nan` only if the magnitude token does -/
-theorem startsWithNan_showQ (m u : String) (h : startsWithNan m.toList = false) :
-    startsWithNan (showQ m u).toList = false := by
+/-- `str(q)` is read as "magnitude nan" only if the magnitude token starts with `nan` -/
+theorem isNanMagnitude_showQ (m u : String) (h : startsWithNan m.toList = false) :
+    isNanMagnitude (showQ m u).toList = false := by
   rw [showQ_toList]
-  unfold startsWithNan at *
+  unfold startsWithNan at h
+  unfold isNanMagnitude
   match hm : m.toList with
   | [] => simp [stripPrefix?]
   | [a] => simp [stripPrefix?]
@@ -327,7 +334,7 @@ theorem startsWithNan_showQ (m u : String) (h : startsWithNan m.toList = false) 
   | a :: b :: c :: rest =>
     rw [hm] at h
     simp [stripPrefix?] at h ⊢
-    intro ha hb hc; exact h ha hb hc
+    intro ha hb hc; exact absurd hc (h ha hb)
 
 theorem nan_showQ_toList (u : String) :
     (showQ "nan" u).toList = 'n' :: 'a' :: 'n' :: ' ' :: showTail u := by
@@ -335,13 +342,28 @@ theorem nan_showQ_toList (u : String) :
   have : "nan".toList = ['n', 'a', 'n'] := by decide
   simp [this]
 
-/-- the nan hypothesis for an ordinary unit string (not printed `1 / x`, no surrounding blanks):
-it is enough that `units(u)` is a quantity in `u` — the prefix test and `strip()` are computed -/
-theorem QOk_nan_of_unit (P : Pint) (u m' : String) (hnl : NoNL (showQ "nan" u))
-    (hrecip : stripPrefix? recipPrefix u.toList = Option.none)
-    (hstrip : pyStripL (' ' :: u.toList) = u.toList) (hnorm : P.norm "nan" u = "nan")
-    (hp : P.parse u = .ok (.quantity m' u)) : QOk P "nan" u := by
-  refine ⟨hnl, Or.inr ⟨rfl, hnorm, m', ?_⟩⟩
-  simp [showTail, hrecip, hstrip, String.ofList_toList, hp]
+/-- re-reading `/ x` as `1 / x` gives the unit string back, for ordinary and reciprocal units -/
+theorem fixRecip_showTail (u : String) (h : NoLeadingSlash u) :
+    String.ofList (fixRecip (showTail u)) = u := by
+  unfold showTail
+  cases hr : stripPrefix? recipPrefix u.toList with
+  | some rest =>
+    have hu := stripPrefix?_some hr
+    simp only [fixRecip]
+    apply String.toList_inj.mp
+    simp [String.toList_ofList, hu, recipPrefix]
+  | none =>
+    simp only
+    unfold NoLeadingSlash at h
+    cases hu : u.toList with
+    | nil => simp [fixRecip, ← hu, String.ofList_toList]
+    | cons c cs =>
+      rw [hu] at h
+      have hc : c ≠ '/' := by simpa using h
+      have : fixRecip (c :: cs) = c :: cs := by
+        unfold fixRecip; split
+        · next heq => simp at heq; exact absurd heq.1 hc
+        · rfl
+      rw [this, ← hu, String.ofList_toList]
 
 end Viv.Ser
